@@ -30,6 +30,14 @@ def main():
         r = sh("git -C %s apply %s" % (W, os.path.abspath(arg)))
     elif mode == "--at":
         r = sh("git -C %s checkout -q --detach %s" % (W, arg)); shutil.copy("/repo/Cargo.lock", W + "/Cargo.lock")
+    elif mode == "--sub":
+        # --sub <file> <old> <new> PROP...   (old must occur exactly once)
+        fn, old, new = a[1], a[2], a[3]; props = a[4:]
+        src = open(os.path.join(W, fn)).read()
+        if src.count(old) != 1:
+            print("APPLY-FAILED: %d occurrences" % src.count(old)); sys.exit(2)
+        open(os.path.join(W, fn), "w").write(src.replace(old, new))
+        r = sh("true")
     else:
         sys.exit("mode?")
     if r.returncode:
